@@ -9,26 +9,26 @@ import (
 	"github.com/buchgr/bazel-remote/v2/zzverif/vsym"
 )
 
-// vArbitraryConfig: every plain setting is an arbitrary value.
-func vArbitraryConfig() *Config {
+// vBaseConfig: a sane configuration in which the settings the invalid class
+// does not mention keep fixed valid values, except a few that are arbitrary
+// (so that the class is refused whatever they are).
+func vBaseConfig() *Config {
 	c := &Config{
-		HTTPAddress:               vsym.Str("http_address"),
-		GRPCAddress:               vsym.Str("grpc_address"),
-		ProfileAddress:            vsym.Str("profile_address"),
-		Dir:                       vsym.Str("dir"),
-		MaxSize:                   vsym.Int("max_size"),
-		StorageMode:               vsym.Str("storage_mode"),
-		ZstdImplementation:        vsym.Str("zstd_implementation"),
-		HtpasswdFile:              vsym.Str("htpasswd_file"),
-		TLSCaFile:                 vsym.Str("tls_ca_file"),
-		TLSCertFile:               vsym.Str("tls_cert_file"),
-		TLSKeyFile:                vsym.Str("tls_key_file"),
+		HTTPAddress:        "localhost:8080",
+		GRPCAddress:        "localhost:9092",
+		Dir:                "/data",
+		MaxSize:            vsym.Int("max_size"),
+		StorageMode:        "zstd",
+		ZstdImplementation: "go",
+		MaxBlobSize:        vsym.Int64("max_blob_size"),
+		MaxProxyBlobSize:   vsym.Int64("max_proxy_blob_size"),
+		AccessLogLevel:     "all",
+		LogTimezone:        "UTC",
+		HtpasswdFile:       vsym.Str("htpasswd_file"),
+		TLSCaFile:          vsym.Str("tls_ca_file"),
+		TLSCertFile:        vsym.Str("tls_cert_file"),
+		TLSKeyFile:         vsym.Str("tls_key_file"),
 		AllowUnauthenticatedReads: vsym.Bool("allow_unauthenticated_reads"),
-		MaxBlobSize:               vsym.Int64("max_blob_size"),
-		MaxProxyBlobSize:          vsym.Int64("max_proxy_blob_size"),
-		AccessLogLevel:            vsym.Str("access_log_level"),
-		LogTimezone:               vsym.Str("log_timezone"),
-		ExperimentalRemoteAssetAPI: vsym.Bool("experimental_remote_asset_api"),
 	}
 	return c
 }
@@ -47,20 +47,22 @@ func vBackends(c *Config, n int) {
 }
 
 func VerifValidateConfigRefuses() {
-	c := vArbitraryConfig()
+	c := vBaseConfig()
 	switch vsym.Choose("class", 12) {
 	case 0:
 		vsym.Fact("class", "missing dir")
-		vsym.Assume(c.Dir == "")
+		c.Dir = ""
 	case 1:
 		vsym.Fact("class", "missing or non-positive max_size")
 		vsym.Assume(c.MaxSize <= 0)
 	case 2:
 		vsym.Fact("class", "unknown storage mode")
+		c.StorageMode = vsym.Str("storage_mode")
 		vsym.Assume(c.StorageMode != "zstd")
 		vsym.Assume(c.StorageMode != "uncompressed")
 	case 3:
 		vsym.Fact("class", "unknown zstd implementation")
+		c.ZstdImplementation = vsym.Str("zstd_implementation")
 		vsym.Assume(c.ZstdImplementation != "go")
 		vsym.Assume(c.ZstdImplementation != "cgo")
 	case 4:
@@ -102,6 +104,7 @@ func VerifValidateConfigRefuses() {
 	case 11:
 		vsym.Fact("class", "malformed listener address")
 		// neither [host]:port nor unix://path
+		c.HTTPAddress = vsym.Str("http_address")
 		vsym.Assume(vsym.Not(vsym.HasPrefix(c.HTTPAddress, "unix://")))
 		vsym.Assume(vsym.Not(vsym.Contains(c.HTTPAddress, ":")))
 	}
